@@ -1094,6 +1094,9 @@ func fieldRemadeBefore(at ssa.Instruction, owner, field string) bool {
 		switch x := v.(type) {
 		case *ssa.MakeSlice:
 			return true
+		case *ssa.Slice:
+			_, isNew := x.X.(*ssa.Alloc) // make with constant size: new array, sliced
+			return isNew
 		case *ssa.Const:
 			return x.Value == nil
 		}
@@ -1175,4 +1178,57 @@ func fieldRemadeBefore(at ssa.Instruction, owner, field string) bool {
 		}
 	}
 	return false
+}
+
+// fieldHandedOver: ld reads a slice field; on every way from the load to a return of its function
+// the same field of the same object is assigned a slice made afresh (or nil), and the loaded value
+// is not put back: the memory loaded now belongs to whoever receives the value
+// (`all := q.items; q.items = make(...); return all`).
+func fieldHandedOver(ld *ssa.UnOp) bool {
+	fa, ok := ld.X.(*ssa.FieldAddr)
+	if !ok || ld.Op != token.MUL {
+		return false
+	}
+	fn := ld.Parent()
+	sameField := func(addr ssa.Value) bool {
+		fb, ok := addr.(*ssa.FieldAddr)
+		return ok && fb.Field == fa.Field && (fb.X == fa.X || resolveCell(fb.X) == resolveCell(fa.X))
+	}
+	isRemake := func(in ssa.Instruction) bool {
+		st, ok := in.(*ssa.Store)
+		if !ok || !sameField(st.Addr) {
+			return false
+		}
+		switch x := st.Val.(type) {
+		case *ssa.MakeSlice:
+			return true
+		case *ssa.Slice:
+			_, isNew := x.X.(*ssa.Alloc) // make with constant size: new array, sliced
+			return isNew
+		case *ssa.Const:
+			return x.Value == nil
+		}
+		return false
+	}
+	any := false
+	bad := false
+	Instrs(fn, func(in ssa.Instruction) {
+		st, ok := in.(*ssa.Store)
+		if !ok || !sameField(st.Addr) {
+			return
+		}
+		if isRemake(in) {
+			if InstrDominates(ld, in) {
+				any = true
+			}
+			return
+		}
+		if InstrReaches(ld, in) {
+			bad = true // something else (possibly the loaded memory again) is assigned after the load
+		}
+	})
+	if !any || bad {
+		return false
+	}
+	return len(ReachAvoiding(fn, ld, isRemake, isReturn)) == 0
 }
